@@ -36,7 +36,7 @@ RULE = ("WSGI SendEventResponse rendezvous scenarios: producer length n in 0..4 
         "SendEventResponse on a virtual-time grid: n in 0..4 x producer delay {0,.5,1.5,4} x send delay {0,.5} x disconnect at {none, {0,.5,1,1.5,2,3}+-eps} x raise point "
         "{none,0,1} x async-generator / plain async-iterable producers. Non-trivial = the close/disconnect happens before the producer is exhausted; distinct = scenario "
         "tuple (rendezvous/grid: by construction) or the observed cross-thread line interleaving (yield injection).")
-RULE += ' Also: producers whose cleanup takes a moment (when close() has returned, the cleanup has finished); field-less events and zero-length chunks as producer steps, producers whose cleanup raises, iterator-object and iterable-object producers with their own close(), a relay still queued behind a saturated pool, ASGI send() failures combined with raising cleanup, endless producers that never await (step cap 5000).'
+RULE += ' Also: streaming responses answering HEAD / POST / OPTIONS / DELETE requests (the producer is consumed or closed, never left open); producers whose cleanup takes a moment (when close() has returned, the cleanup has finished); field-less events and zero-length chunks as producer steps, producers whose cleanup raises, iterator-object and iterable-object producers with their own close(), a relay still queued behind a saturated pool, ASGI send() failures combined with raising cleanup, endless producers that never await (step cap 5000).'
 ASSUMPTIONS = [
     "the producer's cleanup marker is synchronous (a finally that itself awaits can be cut short by asyncio cancellation: an observation, never used for a verdict)",
     "closing a WSGI response iterable on which next() was never called starts nothing and carries no expectations",
@@ -93,12 +93,18 @@ def deadlock_analysis(consumer, prefix):
     stacks = {"consumer": cs2[:8], "relay": [r[:8] for r in rs2]}
     if stable and closer_waits_future and relay_in_put:
         return "deadlock", stacks
+    died = [f for f in POOL_FUTURES.get(prefix, []) if f.done() and not f.cancelled() and f.exception() is not None]
+    if stable and closer_in_get and died:
+        # the consumer waits (without a timeout) for an item or the end mark of a stream whose relay job has already ended with an exception
+        stacks["relay_job_ended_with"] = repr(died[0].exception())[:200]
+        return "deadlock-closer-waits-for-a-relay-that-died", stacks
     if stable and closer_in_get and not relay_in_put and not relay_in_producer and not any(any(f[1] == "push" for f in r) for r in rs2):
         return "deadlock-closer-waits-on-empty-queue", stacks
     return "inconclusive", stacks
 
 
 _SC = [0]
+POOL_FUTURES = {}
 
 
 def new_pool():
@@ -107,6 +113,14 @@ def new_pool():
     _SC[0] += 1
     prefix = f"c06p{os.getpid()}x{_SC[0]}_"
     pool = ThreadPoolExecutor(max_workers=2, thread_name_prefix=prefix)
+    futures = POOL_FUTURES[prefix] = []
+    submit = pool.submit
+
+    def recording_submit(*a, **k):
+        f = submit(*a, **k)
+        futures.append(f)  # what became of every relay job is known to the harness
+        return f
+    pool.submit = recording_submit
     R.SendEventResponse.thread_pool = pool
     return pool, prefix
 
@@ -331,6 +345,69 @@ def wsgi_stream_response(ctx, n, k, raise_at, kind="generator"):
     will_raise = raise_at is not None and raise_at < n and (k is None or raise_at < k)
     if (r.exc is not None) != will_raise or (r.exc is not None and not isinstance(r.exc, KeyError)):
         ctx.violation(f"wsgi-stream|exception-identity|{type(r.exc).__name__ if r.exc else 'none'}", case, repr(r.exc))
+
+
+def other_methods(ctx, iface, cls_name, method, kind):
+    """a streaming response answering a HEAD / POST / OPTIONS request, read to the end: whatever the response does with the
+    body for that method, when the call is over the producer has been consumed or closed - it is never left open"""
+    import asyncio
+    import inspect
+
+    from baize import asgi, wsgi
+    item = (lambda i: {"data": str(i)}) if cls_name == "SendEventResponse" else (lambda i: b"%d;" % i)
+    marks = {"closed": 0, "started": 0}
+    case = {"class": f"{iface}.{cls_name}", "request_method": method, "producer": kind}
+    req = drivers.Req(method=method)
+    if iface == "wsgi":
+        def gen():
+            for i in range(3):
+                yield item(i)
+
+        class Obj:
+            def __iter__(self):
+                marks["started"] += 1
+                return iter([item(i) for i in range(3)])
+
+            def close(self):
+                marks["closed"] += 1
+        g = gen() if kind == "generator" else Obj()
+        with drivers.fresh_sse_pool():
+            r = drivers.run_wsgi_guarded(getattr(wsgi, cls_name)(g), drivers.to_environ(req))
+        exc = r.exc
+        state = inspect.getgeneratorstate(g) if kind == "generator" else None
+    else:
+        async def agen():
+            for i in range(3):
+                yield item(i)
+
+        class AObj:
+            def __aiter__(self):
+                marks["started"] += 1
+                return self.run()
+
+            async def run(self):
+                for i in range(3):
+                    yield item(i)
+
+            async def aclose(self):
+                marks["closed"] += 1
+        g = agen() if kind == "generator" else AObj()
+        lp = asyncio.new_event_loop()
+        try:
+            r = drivers.run_asgi(getattr(asgi, cls_name)(g), drivers.to_scope(req), the_loop=lp)
+            lp.run_until_complete(asyncio.sleep(0))
+            state = inspect.getasyncgenstate(g) if kind == "generator" else None  # read before shutdown_asyncgens() could close it
+        finally:
+            lp.run_until_complete(lp.shutdown_asyncgens())
+            lp.close()
+        exc = r.exc
+    ctx.mon("other-request-methods")
+    if exc is not None:
+        ctx.violation(f"other-method|exception-{type(exc).__name__}|{iface}", case, repr(exc))
+    elif kind == "generator" and not state.endswith("CLOSED"):
+        ctx.violation(f"other-method|producer-left-open|{iface}", case, f"generator state {state} after the response call ended")
+    elif kind != "generator" and not marks["started"] and not marks["closed"]:
+        ctx.violation(f"other-method|producer-object-neither-iterated-nor-closed|{iface}", case, repr(marks))
 
 
 def overlapped_clients(ctx, n, k, ping, first_ends):
@@ -767,6 +844,9 @@ def asgi_scenario(ctx, cls_name, n_items, item_delay, send_delay, t_disc, ping, 
     pre = [request_messages]
 
     async def receive():
+        if request_messages == -1:
+            # there is no receive channel (a response called by other code than a server, the library's own empty_receive): the client stays connected
+            raise NotImplementedError("no receive channel")
         if pre[0] > 0:
             # the request body is still arriving in small pieces while the response streams (an upload that is answered with progress events)
             pre[0] -= 1
@@ -954,6 +1034,13 @@ def run(ctx):
     # an endless producer that never awaits, a client that needs time per event, a disconnect (or none but a failing send)
     if ctx.shard == 0:
         for cls in ("SendEventResponse", "StreamResponse"):
+            for agen in (True, False):
+                for n_items in (1, 3, 6):
+                    for idl in (0, 0.4):
+                        asgi_scenario(ctx, cls, n_items, idl, 0, None, 1.0, None, agen, request_messages=-1)  # receive() raises: nobody disconnected, everything is delivered
+                        ctx.mon("scope-variants")
+                        ctx.case_enum(True)
+        for cls in ("SendEventResponse", "StreamResponse"):
             for sdl in (0.5, 0.01):
                 for td in (0.0, 1.001, 2.5):
                     asgi_scenario(ctx, cls, 0, 0, sdl, td, 1.0, None, True, busy=True)
@@ -995,6 +1082,15 @@ def run(ctx):
         ctx.mon("queued-relay", 0)
         ctx.mon("overlapped-clients", 0)
         ctx.mon("pool-after-early-closes", 0)
+    if ctx.shard == 0:
+        for iface in ("wsgi", "asgi"):
+            for cls_name in ("StreamResponse", "SendEventResponse"):
+                for method in ("HEAD", "POST", "OPTIONS", "DELETE"):
+                    for kind in ("generator", "object"):
+                        other_methods(ctx, iface, cls_name, method, kind)
+                        ctx.case(("other-methods", iface, cls_name, method, kind))
+    else:
+        ctx.mon("other-request-methods", 0)
     # ---------------- WSGI rendezvous
     import itertools
     scen = []
@@ -1057,6 +1153,11 @@ def run(ctx):
 
 
 def replay(ctx, case):
+    if "request_method" in case:
+        iface, cls_name = case["class"].split(".")
+        other_methods(ctx, iface, cls_name, case["request_method"], case["producer"])
+        ctx.case(1)
+        return
     if case.get("class", "").startswith("asgi."):
         asgi_scenario(ctx, case["class"][5:], case["n"], case["producer_delay"], case["send_delay"], case["disconnect_at"], case["ping"], case["raise_at"],
                       case.get("async_generator", True), case.get("empty_chunks_before_each_item", 0), case.get("cleanup_raises", False),
